@@ -30,7 +30,7 @@ RULE = ("producer x object sweep: (die) all valid dies with <=2 regions on a 3x3
         "(alloc) every initial state of the C02 exploration and its successors under each refinement operation; (netgen) grid rows,cols in 1..4, chain/star/one-net n in 2..9, "
         "ring n in 3..9, ring-star n in 4..9, htree levels 1..3, grid with centres on 3 dies; (floorset) 1-3 polygon blocks x constraint flags x weights {0,0.5,1,2} x density "
         "{None,0.5} x both terminal modes; (rectio) get_netlist on grid allocations, solution_to_netlist on 2-module netlists x box solutions; (legal) get_netlist on legaliser "
-        "models of small orthogon netlists with weighted nets. Every document is produced twice. Non-trivial = documents with at least one region / cell map / net / rectangle; "
+        "models of small orthogon netlists (also flippable, fixed with branches, modules named true / Null / no) with weighted nets; Z- and S-shaped FloorSet blocks; netgen with seeded noise. Every document is produced twice. Non-trivial = documents with at least one region / cell map / net / rectangle; "
         "distinct by construction.")
 ASSUMPTIONS = ["documents go through files (the string form of the readers relies on a documented 'contains \": \"' heuristic)",
                "ground regions of a refined die and the fixed flag of allocation cells are not representable in their formats; equality is on what the formats carry",
